@@ -38,6 +38,15 @@
 //!                        same whitening + DKW criterion. Cholesky factorisation commutes with a
 //!                        diagonal scaling up to rounding (componentwise backward error c·d·u·sqrt(Σii·Σjj)),
 //!                        so a correct sampler is as accurate here as on R itself;
+//!   * `mvn:structured:*`  covariances with exact zeros placed by a graph (hub and leaves with the hub
+//!                        first / last, bands, independent dense blocks, rings / trees / sparse graphs
+//!                        under a random labelling, inverse of a sparse precision matrix, diagonal plus
+//!                        rank one), d = 2..6, n = 2e5 (quick) / 1e6 (thorough). Same whitening + DKW
+//!                        criterion, plus `C03.mvn.pairproj`: every pair of coordinates projected on its
+//!                        own ((z_i ± z_j)/√2 whitened; (x_i/sd_i ± x_j/sd_j) standardised by the
+//!                        requested Σ), because "x_i and x_j have covariance Σ_ij" is a statement about
+//!                        that one projection. Counters `mvn:structured:exact-zero` and
+//!                        `mvn:structured:zero-with-fill-in` (a zero of Σ where chol(Σ) is not zero);
 //!   * `inject:<family>`  fault injection on the RNG stream: the library generator is put into a state
 //!                        after which the (k+1)-th raw 64-bit word has an all-ones / all-zero 32-bit
 //!                        half (`gen::ADVERSARIAL_ALEA`), k = 0..11, and the next 12 draws of every law
@@ -472,6 +481,182 @@ fn mvn_scaled_grid(rng: &mut Rng) -> Vec<MvnSpec> {
     for e in [&[-8.0][..], &[2.0], &[0.5, -6.7], &[-7.0, 1.0], &[2.0, -3.0, -8.0], &[-1.0, -4.0, 0.0, -2.0], &[-8.0, 2.0, -6.0, 0.0, -4.0, -2.0], &[1.5, 1.0, -7.5, 2.0, -7.0, 0.0]] {
         let fm = e.len() % 2 == 0;
         out.push(mvn_from_scales(rng, e, fm));
+    }
+    out
+}
+
+// structured / sparse covariances ---------------------------------------------------------------
+
+/// Signed graph Laplacian plus a small positive diagonal: Σ_aa = δ_a + Σ_{edges at a} w_e, Σ_ab = ±w_e
+/// on the edges and exactly 0 elsewhere. xᵀΣx = Σ δ_a x_a² + Σ w_e (x_a ± x_b)² > 0: SPD whatever the
+/// graph, with strong correlations (δ = 0.1..0.4 next to weights 0.5..2).
+fn laplacian_cov(rng: &mut Rng, d: usize, edges: &[(usize, usize)]) -> Vec<f64> {
+    let mut s = vec![0.0; d * d];
+    for a in 0..d {
+        s[a * d + a] = rng.range(0.1, 0.4);
+    }
+    for &(a, b) in edges {
+        let w = rng.range(0.5, 2.0);
+        let sg = if rng.bool() { 1.0 } else { -1.0 };
+        s[a * d + a] += w;
+        s[b * d + b] += w;
+        s[a * d + b] = sg * w;
+        s[b * d + a] = sg * w;
+    }
+    s
+}
+
+fn random_tree(rng: &mut Rng, d: usize) -> Vec<(usize, usize)> {
+    (1..d).map(|k| (rng.usize(0, k - 1), k)).collect()
+}
+
+fn relabel(rng: &mut Rng, d: usize, edges: &[(usize, usize)]) -> Vec<(usize, usize)> {
+    let p = rng.perm(d);
+    edges.iter().map(|&(a, b)| (p[a], p[b])).collect()
+}
+
+const STRUCTURED: [&str; 7] = [
+    "mvn:structured:hub-first",
+    "mvn:structured:hub-last",
+    "mvn:structured:banded",
+    "mvn:structured:block-diagonal",
+    "mvn:structured:graph",
+    "mvn:structured:sparse-precision",
+    "mvn:structured:diag+rank-one",
+];
+
+/// Covariances a user writes down by hand: exact zeros at positions chosen by a graph. d = 2..6.
+///   hub-first / hub-last   one hub coordinate correlated with every other, the leaves mutually
+///                          uncorrelated (arrowhead matrix), hub listed first / last;
+///   banded                 bandwidth 1 or 2 in the natural order;
+///   block-diagonal         two or three independent blocks, dense inside;
+///   graph                  ring, random tree, hub or random sparse graph under a random labelling
+///                          of the coordinates (permutations of the patterns above);
+///   sparse-precision       inverse of a chain / tree precision matrix (graphical model), labelled at
+///                          random: dense or block-dense covariance;
+///   diag+rank-one          one common factor whose loading vector may contain exact zeros.
+/// Each coordinate then gets its own standard-deviation scale (1 or 0.1..10); a zero stays a zero.
+fn mvn_structured(rng: &mut Rng, d: usize, kind: usize) -> MvnSpec {
+    assert!(d >= 2);
+    let mut cov = vec![0.0; d * d];
+    match kind {
+        0 => {
+            let e: Vec<(usize, usize)> = (1..d).map(|i| (0, i)).collect();
+            cov = laplacian_cov(rng, d, &e);
+        }
+        1 => {
+            let e: Vec<(usize, usize)> = (0..d - 1).map(|i| (d - 1, i)).collect();
+            cov = laplacian_cov(rng, d, &e);
+        }
+        2 => {
+            let bw = if d >= 3 && rng.bool() { 2 } else { 1 };
+            let mut e = Vec::new();
+            for i in 0..d {
+                for b in 1..=bw {
+                    if i + b < d {
+                        e.push((i, i + b));
+                    }
+                }
+            }
+            cov = laplacian_cov(rng, d, &e);
+        }
+        3 => {
+            let nb = if d >= 5 && rng.bool() { 3 } else { 2 };
+            let mut cuts: Vec<usize> = Vec::new();
+            while cuts.len() < nb - 1 {
+                let c = rng.usize(1, d - 1);
+                if !cuts.contains(&c) {
+                    cuts.push(c);
+                }
+            }
+            let block_of = |i: usize| cuts.iter().filter(|c| **c <= i).count();
+            let mut e = Vec::new();
+            for i in 0..d {
+                for j in 0..i {
+                    if block_of(i) == block_of(j) {
+                        e.push((j, i));
+                    }
+                }
+            }
+            cov = laplacian_cov(rng, d, &e);
+        }
+        4 => {
+            let e: Vec<(usize, usize)> = match rng.usize(0, 3) {
+                0 if d >= 3 => (0..d).map(|i| (i, (i + 1) % d)).collect(),
+                1 => random_tree(rng, d),
+                2 => (1..d).map(|i| (0, i)).collect(),
+                _ => {
+                    let mut e = Vec::new();
+                    for i in 0..d {
+                        for j in 0..i {
+                            if rng.chance(0.45) {
+                                e.push((j, i));
+                            }
+                        }
+                    }
+                    if e.is_empty() {
+                        e.push((0, d - 1));
+                    }
+                    e
+                }
+            };
+            let e = relabel(rng, d, &e);
+            cov = laplacian_cov(rng, d, &e);
+        }
+        5 => {
+            let e = if rng.bool() { (0..d - 1).map(|i| (i, i + 1)).collect() } else { random_tree(rng, d) };
+            let e = relabel(rng, d, &e);
+            let k = laplacian_cov(rng, d, &e);
+            match linref::inverse(&k, d) {
+                Some(inv) => {
+                    for i in 0..d {
+                        for j in 0..=i {
+                            cov[i * d + j] = inv[i * d + j];
+                            cov[j * d + i] = inv[i * d + j];
+                        }
+                    }
+                }
+                None => cov = k,
+            }
+        }
+        _ => {
+            let mut u: Vec<f64> = (0..d).map(|_| if rng.chance(0.3) { 0.0 } else { rng.range(0.5, 1.5) * if rng.bool() { 1.0 } else { -1.0 } }).collect();
+            if u.iter().filter(|x| **x != 0.0).count() < 2 {
+                u[0] = 1.25;
+                u[d - 1] = -0.75;
+            }
+            for i in 0..d {
+                for j in 0..d {
+                    cov[i * d + j] = u[i] * u[j] + if i == j { rng.range(0.2, 1.0) } else { 0.0 };
+                }
+            }
+        }
+    }
+    let unit = rng.bool();
+    let sc: Vec<f64> = (0..d).map(|_| if unit { 1.0 } else { rng.log_range(0.1, 10.0) }).collect();
+    let mut sigma = vec![0.0; d * d];
+    for i in 0..d {
+        for j in 0..=i {
+            let v = (cov[i * d + j] * sc[i]) * sc[j];
+            sigma[i * d + j] = v;
+            sigma[j * d + i] = v;
+        }
+    }
+    let mean = (0..d).map(|i| sc[i] * rng.range(-10.0, 10.0)).collect();
+    MvnSpec { regime: STRUCTURED[kind], mean, sigma }
+}
+
+/// The structured family of one run: every kind once at a dimension that cycles through 3..6 with the
+/// run seed, then `extra` random (kind, dimension 2..6) pairs.
+fn mvn_structured_cases(rng: &mut Rng, extra: usize) -> Vec<MvnSpec> {
+    let mut out = Vec::new();
+    let off = rng.usize(0, 3);
+    for kind in 0..STRUCTURED.len() {
+        out.push(mvn_structured(rng, 3 + (kind + off) % 4, kind));
+    }
+    for _ in 0..extra {
+        let (d, kind) = (rng.usize(2, 6), rng.usize(0, STRUCTURED.len() - 1));
+        out.push(mvn_structured(rng, d, kind));
     }
     out
 }
@@ -1274,6 +1459,73 @@ fn run_mvn(cfg: &Cfg, rep: &mut Report, spec: &MvnSpec, n: usize, seed: u64, rng
                 c
             });
         }
+        // Structured covariances: the statement "these two coordinates have covariance Σ_ij" is a
+        // statement about one fixed projection, so every pair (i, j) is projected on its own:
+        //   * (z_i ± z_j)/√2 of the whitened draws, and
+        //   * (x_i − μ_i)/sd_i ± (x_j − μ_j)/sd_j of the draws themselves, divided by the standard
+        //     deviation sqrt(2 ± 2ρ_ij) the requested Σ gives it. With x − μ = L z this is the unit
+        //     direction Lᵀu/|Lᵀu| in whitened space, u = e_i/sd_i ± e_j/sd_j.
+        // Directions are fixed before the draws are looked at: each test has false-alarm probability
+        // <= 1e-12 like every other DKW test here (at most 2·d·(d−1) = 60 per case).
+        if regime.starts_with("mvn:structured") {
+            let fillin = (0..d).any(|a| (0..a).any(|b| spec.sigma[a * d + b] == 0.0 && l[a * d + b] != 0.0));
+            if fillin {
+                rep.seen("mvn:structured:zero-with-fill-in", 1);
+            }
+            if (0..d).any(|a| (0..a).any(|b| spec.sigma[a * d + b] == 0.0)) {
+                rep.seen("mvn:structured:exact-zero", 1);
+            }
+            let mut dirs: Vec<(usize, usize, f64, &'static str, Vec<f64>)> = Vec::new();
+            for i in 0..d {
+                for j in 0..i {
+                    for sg in [1.0, -1.0] {
+                        let mut w = vec![0.0; d];
+                        w[i] = std::f64::consts::FRAC_1_SQRT_2;
+                        w[j] = sg * std::f64::consts::FRAC_1_SQRT_2;
+                        dirs.push((i, j, sg, "whitened", w));
+                        // Lᵀu, u = e_i/sd_i + sg·e_j/sd_j
+                        let (si, sj) = (spec.sigma[i * d + i].sqrt(), spec.sigma[j * d + j].sqrt());
+                        let mut v = vec![0.0; d];
+                        for k in 0..d {
+                            v[k] = l[i * d + k] / si + sg * l[j * d + k] / sj;
+                        }
+                        let nrm = v.iter().map(|x| x * x).sum::<f64>().sqrt();
+                        // perfectly (anti)correlated pairs have no second direction
+                        if nrm > 1e-6 {
+                            for x in v.iter_mut() {
+                                *x /= nrm;
+                            }
+                            dirs.push((i, j, sg, "standardised-coordinates", v));
+                        }
+                    }
+                }
+            }
+            for (i, j, sg, space, u) in dirs.iter() {
+                for (t, row) in raw.chunks_exact(d).enumerate() {
+                    let mut s = 0.0;
+                    for k in 0..d {
+                        s += u[k] * row[k];
+                    }
+                    buf[t] = s;
+                }
+                let (dist, at) = ks(&mut buf, &std_cdf, &std_cdf);
+                worst = worst.max(dist / eps);
+                rep.check("C03.mvn.pairproj", regime, dist <= eps, || {
+                    let mut c = ctx();
+                    c["pair"] = json!([i, j]);
+                    c["sign"] = json!(sg);
+                    c["space"] = json!(space);
+                    c["requested_covariance_of_pair"] = json!(spec.sigma[i * d + j]);
+                    c["unit_direction_in_whitened_space"] = jf(u);
+                    c["n"] = json!(nn);
+                    c["D"] = jnum(dist);
+                    c["eps"] = json!(eps);
+                    c["argmax_x"] = jnum(at);
+                    c["whitened_cov_abs_err"] = json!(cov_err);
+                    c
+                });
+            }
+        }
         rep.note_max(&format!("worst_ratio.dkw.{}", regime), worst);
         // (a failing MVN case is not a "passing case"; only record the margin when everything passed)
         if worst <= 1.0 {
@@ -1698,7 +1950,7 @@ const SITES: &[(&str, u64, bool)] = &[
 ];
 
 pub fn run(cfg: &Cfg, rep: &mut Report) {
-    rep.rule = "fixed grid of parameter points covering every sampler branch named in the quantifier (gamma shape <1/3, =1/3, <1, >=1 and beta/chi2/t built on it; Poisson rate <10, 10..100, 125/149, >=150; binomial inversion/BTPE on both sides of n*min(p,1-p)=30 with and without the p<->1-p flip, p in {0,1}, n up to 1e5; equal-bounds uniform/discrete uniform; normal |mu|<=1e3, sigma=0; MVN d=1..4; badly scaled MVN covariances D*R*D with standard deviations 1e-8..1e2, variance ratio >= 1e6, |correlations| up to 0.94, d = 1..6: 8 fixed + 12 (24) random) plus random parameter points inside the same regimes; each case = one law, one alea seed, n draws requested through sample/sample_n/sample_matrix in turn (quick 2e5, thorough 4e6; the grid is run with 2 (quick) / 3 (thorough) alea seeds per point plus 32 / 96 random points; quick adds 24 sentinel cases at n = 4e6). non-trivial = the law is not a point mass; distinct by (law, parameters, alea seed). Bulk requests at and around chunk boundaries: one parameter point per regime label of every 1-D law and MVN d = 1..3, sizes n = k*2^j - 1, k*2^j, k*2^j + 1 for 2^j = 256..131072 (k in 1..5 up to 2^13, 1..3 up to 2^16, 1..2 at 2^17; thorough: k up to 8 at 2^17) and round decimal sizes 1e5..3e5 (thorough: up to 2e6), each through sample_n(n) and sample_matrix(r, c) with up to 3 factorisations r*c = n (2 from 2^15 draws on, where the sizes next to a boundary use the vector form only; MVN: DistributionND::sample_n): count, shape, support, integrality, no panic (no statistics). Fault injection: every grid point x 8 adversarial alea states (a raw word with an all-ones / all-zero 32-bit half) x word position 0..5 and one in 6..11 x {12 sample() calls, sample_n(12)}: no panic, bounded progress, support, integrality".into();
+    rep.rule = "fixed grid of parameter points covering every sampler branch named in the quantifier (gamma shape <1/3, =1/3, <1, >=1 and beta/chi2/t built on it; Poisson rate <10, 10..100, 125/149, >=150; binomial inversion/BTPE on both sides of n*min(p,1-p)=30 with and without the p<->1-p flip, p in {0,1}, n up to 1e5; equal-bounds uniform/discrete uniform; normal |mu|<=1e3, sigma=0; MVN d=1..4; badly scaled MVN covariances D*R*D with standard deviations 1e-8..1e2, variance ratio >= 1e6, |correlations| up to 0.94, d = 1..6: 8 fixed + 12 (24) random; structured MVN covariances with exact zeros placed by a graph - hub-first, hub-last, banded, block-diagonal, ring/tree/sparse graph under a random labelling, inverse of a chain/tree precision matrix, diagonal + rank one - d = 2..6, 7 fixed + 9 (21) random, n = 2e5 (1e6), each also through all pair projections) plus random parameter points inside the same regimes; each case = one law, one alea seed, n draws requested through sample/sample_n/sample_matrix in turn (quick 2e5, thorough 4e6; the grid is run with 2 (quick) / 3 (thorough) alea seeds per point plus 32 / 96 random points; quick adds 24 sentinel cases at n = 4e6). non-trivial = the law is not a point mass; distinct by (law, parameters, alea seed). Bulk requests at and around chunk boundaries: one parameter point per regime label of every 1-D law and MVN d = 1..3, sizes n = k*2^j - 1, k*2^j, k*2^j + 1 for 2^j = 256..131072 (k in 1..5 up to 2^13, 1..3 up to 2^16, 1..2 at 2^17; thorough: k up to 8 at 2^17) and round decimal sizes 1e5..3e5 (thorough: up to 2e6), each through sample_n(n) and sample_matrix(r, c) with up to 3 factorisations r*c = n (2 from 2^15 draws on, where the sizes next to a boundary use the vector form only; MVN: DistributionND::sample_n): count, shape, support, integrality, no panic (no statistics). Fault injection: every grid point x 8 adversarial alea states (a raw word with an all-ones / all-zero 32-bit half) x word position 0..5 and one in 6..11 x {12 sample() calls, sample_n(12)}: no panic, bounded progress, support, integrality".into();
     rep.assume("parameters are finite and accepted by the constructor's documented domain (no NaN/inf parameters)");
     rep.assume("bulk shapes have positive dimensions for the matrix forms (Matrix cannot represent 0 rows: C15); sample_n(0) is checked for the vector form");
     rep.assume("'terminates' is restated as bounded progress: no single draw ticks any rejection-loop site more than 1e6 times (DESIGN §0)");
@@ -1777,6 +2029,27 @@ pub fn run(cfg: &Cfg, rep: &mut Report) {
     });
     for r in REGIMES_1D.iter().chain(REGIMES_MVN) {
         rep.require(r, 1);
+    }
+    // structured / sparse covariances (exact zeros placed by a graph): own generator, own stream
+    {
+        let mut gen_struct = Rng::new(cfg.seed ^ 0x57C7_0C03);
+        let mut structured = mvn_structured_cases(&mut gen_struct, if cfg.lite { 0 } else if cfg.thorough() { 21 } else { 9 });
+        if cfg.lite {
+            structured.truncate(2);
+        }
+        let ns = cfg.pick(200_000, 1_000_000, 48);
+        rep.note("cases.mvn_structured", json!(structured.len()));
+        par_cases(cfg, rep, 4, structured.len(), |i, rng, rep| {
+            let seed = rng.u64() | 1;
+            run_mvn(cfg, rep, &structured[i], ns, seed, rng)
+        });
+        if !cfg.lite {
+            for r in STRUCTURED.iter() {
+                rep.require(r, 1);
+            }
+            rep.require("mvn:structured:exact-zero", 4);
+            rep.require("mvn:structured:zero-with-fill-in", 2);
+        }
     }
     // fault injection on the RNG stream: every parameter point of the grid (and the badly scaled
     // covariances) under every adversarial generator state
